@@ -126,9 +126,24 @@ class OnePass:
 class DecRecorder(BoboDeciderSubscriber):
     def __init__(self):
         self.notifs = []
+        self.kept = []            # the list OBJECTS handed over, each with a copy taken at that moment
 
     def on_decider_update(self, completed, halted, updated, local):
         self.notifs.append((list(completed), list(halted), list(updated), local))
+        self.kept.append(((completed, halted, updated), (list(completed), list(halted), list(updated))))
+
+    def changed(self):
+        """the first notification whose lists no longer hold what they held when they were handed over, or None
+        (a subscriber that keeps a notification re-reads it later: it is a snapshot)"""
+        for k, (objs, copies) in enumerate(self.kept):
+            for name, o, c in zip(('completed', 'halted', 'updated'), objs, copies):
+                try:
+                    now = list(o)
+                except Exception:   # noqa
+                    continue
+                if len(now) != len(c) or any(a is not b for a, b in zip(now, c)):
+                    return k, name, len(c), len(now)
+        return None
 
 
 class CERecorder(BoboProducerSubscriber):
@@ -409,15 +424,16 @@ class Net:
 
 
 class Cluster:
-    def __init__(self, names, phens, cache=1000, periods=None, with_action=True, clock0=1000, via_setup=False):
+    def __init__(self, names, phens, cache=1000, periods=None, with_action=True, clock0=1000, via_setup=False, quiet=()):
         self.names, self.phens, self.cache, self.periods = list(names), phens, cache, periods
+        self.quiet = set(quiet)       # instances cold-started WITHOUT announcing themselves (flag_reset=False); a restart announces
         self.via_setup = via_setup
         FakeSock.count = 0            # (the read sizes depend on the scenario alone: a replay sees the same ones)
         self.clock = Clock(clock0)
         self.net = Net()
         self.devices = [(n, 'k' + n) for n in names] if len(names) > 1 else []
         self.with_action = with_action
-        self.insts: Dict[str, Inst] = {n: self._mk(n, 0) for n in names}
+        self.insts: Dict[str, Inst] = {n: self._mk(n, 0, flag_reset=n not in self.quiet) for n in names}
         self.dead: List[Inst] = []
         self.gens = {n: 0 for n in names}
 
